@@ -25,8 +25,13 @@ func genC05BG(r *Rng, tier string, p *Plan) *Plan {
 			p.Init = append(p.Init, Op{Args: []string{"EXPIRE", k, "-10"}})
 		}
 	}
-	for i, n := 0, r.Range(1, 3); i < n; i++ {
-		p.Ops = append(p.Ops, Op{C: 0, Args: g.Cmd(r)})
+	for i, n := 0, r.Range(1, 3); i < n; {
+		a := g.Cmd(r)
+		if nm := strings.ToUpper(a[0]); strings.HasPrefix(nm, "SINTER") || strings.HasPrefix(nm, "SUNION") || strings.HasPrefix(nm, "SDIFF") {
+			continue // these answer differently from one execution to the next when an operand has the wrong type (Go map iteration)
+		}
+		p.Ops = append(p.Ops, Op{C: 0, Args: a})
+		i++
 	}
 	p.Knobs["sampler"] = int64(r.Intn(4)) // 0: no tick; else a tick is woken before the commands start
 	p.Knobs["save"] = int64(r.Intn(3))    // 1: SAVE runs next to the writer
